@@ -121,6 +121,11 @@ def p_identity(eng, st, name, args, site, depth, call):
     return one(st, eng.val(st, a))
 
 
+@prim_re(r"ToOwned>::to_owned$|^<str as std::string::ToString>::to_string$|^<std::string::String as std::string::ToString>::to_string$")
+def p_to_owned(eng, st, name, args, site, depth, call):
+    return one(st, eng.val(st, args[0]))
+
+
 @prim_re(r"^<.* as std::clone::Clone>::clone$")
 def p_clone(eng, st, name, args, site, depth, call):
     return one(st, eng.val(st, args[0]))
